@@ -13,7 +13,7 @@ structure Inv (s : State) : Prop where
 theorem countP_replicate_idle (n h : Nat) : (List.replicate n ({} : Sender)).countP (critB h) = 0 := by
   rw [List.countP_eq_zero]; intro a ha; rw [List.mem_replicate] at ha; simp [ha.2, critB]
 
-theorem inv_init (nh ns : Nat) : Inv (init nh ns) := by
+theorem inv_init (nh ns cap : Nat) : Inv (init nh ns cap) := by
   refine ⟨?_, ?_, ?_, ?_, ?_, ?_⟩
   · constructor <;> simp [init, qMustBeEmpty]
   · constructor <;> simp [init, List.getElem?_replicate] <;> grind
@@ -40,12 +40,12 @@ theorem inv_run {s : State} (acts : List Act) (hI : Inv s) : Inv (run s acts) :=
   | cons a as ih => exact ih (inv_step' a hI)
 
 theorem inv_reachable {s : State} (h : Reachable s) : Inv s := by
-  obtain ⟨nh, ns, acts, rfl⟩ := h
-  exact inv_run acts (inv_init nh ns)
+  obtain ⟨nh, ns, cap, acts, rfl⟩ := h
+  exact inv_run acts (inv_init nh ns cap)
 
 theorem reachable_run {s : State} (h : Reachable s) (acts : List Act) : Reachable (run s acts) := by
-  obtain ⟨nh, ns, a0, rfl⟩ := h
-  exact ⟨nh, ns, a0 ++ acts, by simp [run, List.foldl_append]⟩
+  obtain ⟨nh, ns, cap, a0, rfl⟩ := h
+  exact ⟨nh, ns, cap, a0 ++ acts, by simp [run, List.foldl_append]⟩
 
 /-! ## a handle whose uv__async_close returned stays closed and gets no further callback -/
 theorem closed_step {s s' : State} {a : Act} {h : Nat} (hL : InvL s) (hu : (s.hs h).unlinked = true)
@@ -73,6 +73,7 @@ theorem closed_step {s s' : State} {a : Act} {h : Nat} (hL : InvL s) (hu : (s.hs
     repeat' split at hs
     all_goals first | (simp at hs; done) | skip
     all_goals (simp only [Option.some.injEq] at hs; subst hs; simp [setH, upd]; first | done | grind)
+  | eintr w => cases step?_eintr hs; exact ⟨hu, rfl⟩
   | closeCbs =>
     simp only [step?] at hs
     repeat' split at hs
@@ -100,7 +101,7 @@ def Contract (s : State) (a : Act) : Prop :=
   a = .closeCbs → ∀ (t : Nat) (x : Sender), s.snd[t]? = some x → x.pc ≠ .idle → (s.hs x.h).unlinked = false
 
 inductive ReachC : State → Prop
-  | init (nh ns : Nat) : ReachC (init nh ns)
+  | init (nh ns cap : Nat) : ReachC (init nh ns cap)
   | step {s s' : State} {a : Act} : ReachC s → Contract s a → step? s a = some s' → ReachC s'
 
 /-- no thread is inside uv_async_send on a handle whose memory has been released -/
@@ -136,6 +137,7 @@ theorem memSafe_step {s s' : State} {a : Act} (hL : InvL s) (hM : MemSafe s) (hC
     all_goals first | (simp at hs; done) | skip
     all_goals (simp only [Option.some.injEq] at hs; subst hs; intro t' x' hx' hp; have := hM t' x' hx' hp
                simp [setH, upd] at *; first | done | grind)
+  | eintr w => cases step?_eintr hs; exact hM
   | closeCbs =>
     have hC' := hC rfl
     simp only [step?] at hs
@@ -147,8 +149,8 @@ theorem memSafe_step {s s' : State} {a : Act} (hL : InvL s) (hM : MemSafe s) (hC
 
 theorem reachC_inv {s : State} (h : ReachC s) : InvL s ∧ MemSafe s := by
   induction h with
-  | init nh ns =>
-    refine ⟨(inv_init nh ns).L, ?_⟩
+  | init nh ns cap =>
+    refine ⟨(inv_init nh ns cap).L, ?_⟩
     intro t x hx hp; simp [init, List.getElem?_replicate] at hx; obtain ⟨_, rfl⟩ := hx; simp at hp
   | step _ hC hs ih => exact ⟨invL_step ih.1 hs, memSafe_step ih.1 ih.2 hC hs⟩
 
